@@ -175,5 +175,10 @@ func (s *roundStartingStorage) Prune(round int64) error {
 		delete(s.items, roundRemove)
 	}
 	s.rounds = s.rounds[pruneIndex+1:]
+	if len(s.rounds) == 0 {
+		// the latest entry is gone too: forget it, or Get/GetLatest keep
+		// resolving to a round that is no longer stored
+		s.max = 0
+	}
 	return nil
 }
